@@ -14,7 +14,7 @@ import (
 var splitLexemes = []string{
 	";", "a", "1", " ", "\n", "';'", "\";\"", "`;`", "''';\n'''", "r';\\''", "b\";\"",
 	"/*;*/", "/* c */", "--;\n", "-- c\n", "#;\n", "//;\n", "--c", "/*", "'", "`", "\\", "'\\;'", "- -", "/ *",
-	"select", "@p", ".", "\x00", "\f", "\t", "\r\n", "\u00a0",
+	"select", "@p", ".", "\x00", "\f", "\t", "\r\n", "\u00a0", "\r",
 }
 
 // checkSplit evaluates C12's oracle on one input; returns signature->detail.
@@ -206,7 +206,9 @@ func C12(r *explore.Run) {
 		func(c *explore.Ctx) { body(c, spaces.Str(c, splitLexemes, n+1)) })
 }
 
-var splitByteContexts = [][2]string{{"a;", "b"}, {"a", ";b"}, {"a ; ", " b"}, {"a;", ""}, {"", ";a"}, {"';", "';a"}, {"/*;", "*/;a"}, {"--;", "\n;a"}, {"`;", "`;a"}, {"a.", ";b"}}
+var splitByteContexts = [][2]string{{"a;", "b"}, {"a", ";b"}, {"a ; ", " b"}, {"a;", ""}, {"", ";a"}, {"';", "';a"}, {"/*;", "*/;a"}, {"--;", "\n;a"}, {"`;", "`;a"}, {"a.", ";b"},
+	// inside a line comment, with a ';' or a quote later on the same line (only a line feed ends the comment)
+	{"a -- x", ";y\n;b"}, {"a #", "';\n"}, {"a //", " ` ;\n;"}, {"--", ";"}}
 
 // splitPoisons end in unusual lexer states (error right after "ident .", inside a string, inside a comment).
 var splitPoisons = []string{"SELECT t.'abc", "a . ", "'", "x /*"}
